@@ -68,3 +68,18 @@ text("C11",
      "two seeded scenario families: (1) a Byzantine authenticated peer injects raw frames (every flag combination, any tube id except the unrelated tube, length fields inconsistent with the datagram incl. 65523/65524/65535, acknowledgement and frame numbers before/at/after anything sent and around 2^31/2^32, both header layouts, datagrams shorter than a header) while an unrelated reliable tube transfers data in both directions - oracle: no panic, the unrelated transfer completes intact, Muxer.Stop returns within 5 simulated minutes; (2) the peer opens a tube of each application type and writes random, truncated, mutated and extreme-length-prefix byte strings in random fragments into the real reader of that type (10 readers) then closes or vanishes - oracle: no panic, the reader returns within 10 simulated minutes after the stream ends (or when the local muxer stops), bytes allocated while it runs <= 8 MiB + 64 x bytes received",
      TB + "; allocation is measured with runtime.MemStats.TotalAlloc around the reader (single P, concurrent muxer goroutines included in the slack); workers run under RLIMIT_AS 10 GiB",
      "deterministic simulation with fault injection (Byzantine-peer input search, liveness and allocation oracles)", "DESIGN.md 4 C11")
+
+add("C02", "fault_enumeration",
+    [{"name": "tamper-sweep", "quick_s": 90, "thorough_s": 900, "quick_runs": 43008, "thorough_runs": 43008 * 8}],
+    real=["transport (Client, Server, PQ discoverable and hidden handshakes, cookies, key derivation)", "cyclist", "kravatte", "keys (X25519, ML-KEM-512)", "certs"],
+    rule=("the run index enumerates the single-fault space of one handshake: alteration kind (xor / truncate / replace) x handshake message type (5 discoverable + 2 hidden) "
+          "x byte position or truncation length 0..2047 (every message is shorter) x mask family per sweep (sweep 0: single bit 1<<(pos%8); 1: 0xff; 2: 0x80; 3: 0x01; 4+: seeded non-zero); "
+          "replace = the corresponding datagram of an independent handshake (other client, or an earlier attempt from the same address). One sweep = 43008 runs and covers EVERY byte offset and "
+          "EVERY truncation length of every message; positions beyond the message length are vacuous runs (still a completed handshake whose keys are compared). "
+          "Non-trivial = the alteration was applied in flight and the receiving party's outcome was judged; distinct = distinct event-log hash."),
+    assumptions=["quick tier: one complete sweep (all offsets, all truncation lengths, 28 replacements, one mask per offset); thorough: 8 sweeps with further mask families",
+                 "substituting a hidden-mode request by another handshake's request makes the server complete the donor's handshake again (replay inside the 5 s freshness window); this is recorded as a probe and not judged, because the statement is about the handshake whose datagram was replaced"])
+text("C02",
+     "complete enumeration of single in-flight faults on the handshake: every byte offset (xor) and every truncation length of all 7 handshake message types of both modes, plus replacement by the corresponding datagram of an independent or earlier handshake; oracle: the party that received the altered datagram does not complete (client: Handshake() error; server: no connection published / no session established for it); for every handshake both sides completed: equal session id and directional keys (white-box accessor), directional keys distinct and non-zero, keys pairwise distinct across sessions of the run, first data packet decrypts",
+     TB + "; masks are one per offset per sweep (not all 255); pairwise key distinctness is checked within a run, not across runs",
+     "deterministic simulation with fault injection (exhaustive single-fault sweep over offsets and lengths via a man-in-the-middle on the simulated network)", "DESIGN.md 4 C02")
